@@ -30,7 +30,7 @@ C19 = {
         T("TestC19Bulk", (25, 4), (250, 16)),
     ],
     "required_classes": [
-        "type=keyvalue", "type=annotation", "type=roi",
+        "type=keyvalue", "type=annotation", "type=roi", "type=uint8blk", "full/type=uint8blk", "flatten/type=uint8blk",
         "full", "flatten", "full/type=keyvalue", "flatten/type=keyvalue", "full/type=annotation", "flatten/type=annotation",
         "full/type=roi", "flatten/type=roi",
         "via=rpc", "via=CopyInstance",
